@@ -1,4 +1,16 @@
 def classify(case):
+    """reload-version-wrap (known finding F25) exactly for histories in which some installed reload takes
+    rulesVersion from 65535 to 0 (the conntrack reset at the wrap cuts flows the rules still allow)."""
+    c = (case or {}).get("case") or {}
+    try:
+        v = int(c.get("v0", 0))
+        for e in c.get("events", []):
+            if e and e[0] == "reload":
+                v = (v + 1) % 65536
+                if v == 0:
+                    return "reload-version-wrap"
+    except Exception:
+        return None
     return None
 
 
@@ -16,7 +28,9 @@ SPEC = {
                   "it as long as rulesVersion does not wrap; at the uint16 wrap the conntrack is reset, so for any number of reloads "
                   "an entry carrying the current version was validated against the current rules (a stale entry never looks "
                   "current). The reset at the wrap does cut established flows under unchanged rules once per 65 536 reloads "
-                  "(C19_same_rules_wrap_refuted, reproduced on the real code). The model is tied to interface.go/firewall.go by "
+                  "(C19_same_rules_wrap_refuted, reproduced on the real code: known finding F25, signature reload-version-wrap); "
+                  "the specification as the property states it (no reset) is proved for every history without a wrap and is "
+                  "the one evaluated on the implementation, so the wrap witness reproduces on every run. The model is tied to interface.go/firewall.go by "
                   "histories driven through the real reloadFirewall (config.C reload callback) with generated rule sets including "
                   "reverted rules, rules saying the same in other words, timeout-only changes, unchanged configurations and "
                   "unsafe-network changes of our certificate, with rulesVersion preset near 65535 through the overlay; the "
